@@ -58,6 +58,7 @@ pub fn oc_of(checker: &dyn ValueObj) -> OC {
   if let Some(c) = any.downcast_ref::<OCh>() { return c.0; }
   if any.is::<EqualsChecker>() { return OC::PieEquals; }
   if any.is::<AlwaysConsistent>() { return OC::PieAlways; }
+  if any.is::<crate::world::UnitCh>() { return OC::UnitPred; }
   panic!("HARNESS-BUG: tracker got an output checker of unknown type: {:?}", checker);
 }
 pub fn rc_of(checker: &dyn ValueObj) -> RC {
